@@ -79,7 +79,7 @@ def key_ok(k: str) -> bool:
             pass
     if f in ('id', 'nodeid', 'mapversion'):
         return False
-    return '\n' not in k
+    return '\n' not in k and '\r' not in k
 
 
 # ------------------------------------------------------------------------------------------------ spec generator
@@ -89,7 +89,7 @@ def gen_output(rng: random.Random, nasty: float) -> dict:
     # commas are allowed in the parameter only; ESC cannot occur anywhere in a comma-form value because its presence
     # selects the ESC form.
     forb = SEP + (',' if comma else '')
-    name_forb = forb + '\n'
+    name_forb = forb + '\n\r'      # an output name is a key: Keyvalues.parse refuses LF/CR in keys
     o = {
         'out': rstr(rng, nasty * 0.5, name_forb + ';', lo=1),
         'targ': rstr(rng, nasty, forb),
@@ -246,7 +246,7 @@ def gen_entity(rng: random.Random, nasty: float, n_vis: int, n_grp: int, disp_p:
         used = set()
         for _ in range(rng.choice([1, 2, 3, 6, 12])):
             # a fixup variable is written as "$var value": the name cannot carry a space or start with $ (format limit)
-            var = rstr(rng, nasty * 0.6, ' ', lo=0).lstrip('$')
+            var = rstr(rng, nasty * 0.6, ' ', lo=1).lstrip('$') or 'v'
             if var.casefold() in used:
                 continue
             used.add(var.casefold())
@@ -272,7 +272,8 @@ def gen_viewport(rng: random.Random) -> dict:
     if rng.random() < 0.4:
         return {'3d': True, 'pos': rvec(rng), 'ang': [rng.uniform(0, 359.9), float(rng.randint(0, 359)), 0.0]}
     return {'3d': False, 'axis': rng.choice('xyz'),
-            'u': rng.choice([0.0, 0.0, rfloat(rng), 65536.0]), 'v': rng.choice([0.0, rfloat(rng), -65536.0]),
+            # u/v of exactly +-65536 cannot be carried: that value marks the view axis in the file (format limit)
+            'u': rng.choice([0.0, 0.0, rfloat(rng), 65535.5]), 'v': rng.choice([0.0, rfloat(rng), -65537.0]),
             'zoom': rng.choice([1.0, 0.5, abs(rfloat(rng)) or 1.0])}
 
 
@@ -745,6 +746,9 @@ def err_class(e: BaseException) -> str:
     return f'{type(e).__name__}:{msg}'
 
 
+NEGZERO = re.compile(r'(?<![0-9A-Za-z_.+\-])-0(?![0-9A-Za-z_.])')
+
+
 def check_vmf(vmf, opts: dict) -> list[tuple[str, str, dict]]:
     """Round-trip oracles on one VMF object. Returns a list of (key, what, detail)."""
     out: list[tuple[str, str, dict]] = []
@@ -759,6 +763,21 @@ def check_vmf(vmf, opts: dict) -> list[tuple[str, str, dict]]:
         return [('parse-error:' + err_class(e), f'parsing the exported text raised {type(e).__name__}: {e}', {'text_len': len(t1)})]
     after = observe(v2, opts)
     seen = set()
+    # Entities that merely changed their order are reported once as such and then compared pairwise by ID.
+    ids_b = [e['id'] for e in before['entities']]
+    ids_a = [e['id'] for e in after['entities']]
+    if ids_b != ids_a and sorted(ids_b) == sorted(ids_a) and len(set(ids_b)) == len(ids_b):
+        hid = [e['hidden'] for e in before['entities']]
+        why = 'hidden-before-visible' if any(h and not h2 for i, h in enumerate(hid) for h2 in hid[i + 1:]) else 'other'
+        out.append((f'order:entities:{why}', f'VMF.entities changed order after export->parse: ids {ids_b} became {ids_a}',
+                    {'before': ids_b, 'after': ids_a}))
+        by_id = {e['id']: e for e in after['entities']}
+        after['entities'] = [by_id[i] for i in ids_b]
+    if (not opts.get('minimal') and before['cordons']['enabled'] and not before['cordons']['list']
+            and not after['cordons']['enabled']):
+        out.append(('cordons-enabled-without-cordons', 'cordon_enabled=True on a map without cordons is exported as "active" "0"',
+                    {}))
+        after['cordons']['enabled'] = True
     ignore_ids = not opts.get('preserve_ids')
     for path, a, b in diff(before, after):
         pc = path_class(path)
@@ -774,8 +793,14 @@ def check_vmf(vmf, opts: dict) -> list[tuple[str, str, dict]]:
     except Exception as e:
         out.append(('reexport-error:' + err_class(e), f're-export raised {type(e).__name__}: {e}', {}))
         return out
-    if t1 != t2 and (opts.get('preserve_ids') or renumber(t1) != renumber(t2)):
-        cls, det = text_diff_class(t1, t2) if opts.get('preserve_ids') else text_diff_class(renumber(t1), renumber(t2))
+    if t1 != t2 and not opts.get('preserve_ids'):
+        t1, t2 = renumber(t1), renumber(t2)
+    if t1 != t2 and NEGZERO.sub('0', t1) == NEGZERO.sub('0', t2):
+        cls, det = text_diff_class(t1, t2)
+        out.append(('text-negative-zero', f'a number exported as "-0" re-reads as -0.0 and is exported as "0" the second time: '
+                    f'line {det["line"]}: {det["first"]!r} became {det["second"]!r}', det))
+    elif t1 != t2:
+        cls, det = text_diff_class(NEGZERO.sub('0', t1), NEGZERO.sub('0', t2))
         out.append(('text:' + cls, f'export->parse->export is not a fixed point: line {det["line"]}: {det["first"]!r} became {det["second"]!r}', det))
     return out
 
@@ -866,7 +891,7 @@ def shrink_spec(spec: dict, pred: Callable[[dict], bool], budget: int = 250) -> 
             if isinstance(val, list) and not fixed:
                 cands = list(_children(val))
             elif isinstance(val, str):
-                cands = list(_children(val))[:12]
+                cands = [] if (p and p[-1] in ('axis', 'kind')) else list(_children(val))[:12]
             elif isinstance(val, dict) and p and p[-1] in ('keys', 'world_keys'):
                 cands = [{k: v for k, v in val.items() if k != d} for d in val if d != 'classname']
             elif isinstance(val, dict) and p and p[-1] in ('disp', 'multi') :
